@@ -281,7 +281,11 @@ fn arb_value_with(number: BoxedStrategy<String>, dups: bool, token_rate: u32) ->
 			2 => proptest::collection::vec((key.clone(), inner), 0..=6).prop_map(RefValue::Obj),
 		]
 	});
-	let s = prop_oneof![8 => tree, 1 => wide.clone(), 1 => proptest::collection::vec(wide, 1..4).prop_map(RefValue::Arr)];
+	// large shapes (very wide, heavy duplication, deep chains) with their numbers kept outside the known classes
+	let large = gen::arb_large_value(dups).prop_map(|v| {
+		gen::map_numbers(v, &|n| if is_class_a(&n) || sig_digits(&n) > 19 || !in_double_range(&n) { "1.5".to_string() } else { n })
+	});
+	let s = prop_oneof![8 => tree, 1 => wide.clone(), 1 => proptest::collection::vec(wide, 1..4).prop_map(RefValue::Arr), 1 => large];
 	if dups {
 		s.boxed()
 	} else {
